@@ -63,3 +63,7 @@ claim("C06", "DESIGN.md 3/C06",
       "event graph over histories of ContextResults fed to the real collect_results: every sequence of <=3 (thorough 4) events over every contiguous window (incl. empty and all-covering) x 3 (stream,test) keys with pairwise-disjoint same-key windows, in every order, with axis arrays present and absent, through list and dict form; plus real stream runs over disjoint windows in every permutation of the yield order; compared with an order-free reference built from the event set (confluence)",
       "4 rows (thorough 5); data/axis values on uncovered rows not judged",
       TECH_GRAPH)
+claim("C07", "DESIGN.md 3/C07",
+      "2276 abstract configs from a bounded grammar (1-2 contexts, 1-2 streams, every subset of <=2 entries of an 8-entry test menu incl. unknown test/module, windows, GeoJSON regions; thorough: subsets of <=3) are rendered in every expressible layout (4) and carrier (13: dict, OrderedDict, YAML/JSON text, StringIO, str/Path files, xarray global attribute, per-variable attributes; thorough + NetCDF file) and loaded by the real Config; calls/contexts/Call.config() must equal the call set computed from the abstract config",
+      "harness renderings are self-checked for round trip; shapely builds the expected region; parameters that are themselves mappings not generated",
+      TECH_TREE)
